@@ -196,6 +196,11 @@ def check_form(rec, case, desc, rng, nproblems=2):
                 w2 = float(np.max(np.where(np.isfinite(A2), np.abs(A2 - R2['A']), np.inf) / tol2))
             rec.count('oracle:after_update_vs_reference'); rec.ratio('after_update_vs_reference', w2, 1.0)
             if not w2 <= 1.0:
+                # mechanism: are quantities derived from an updated field precomputed once at construction time?
+                from forms import canon
+                try: derived = canon.precomputed_from(C.generate(build.make_vform(desc)), upd)
+                except Exception: derived = None
+                sig = dict(sig, updated_field_feeds_precomputed_quantities=bool(derived))
                 k2 = int(np.argmax(np.abs(A2 - R2['A']) / tol2)); i2 = np.unravel_index(k2, A2.shape)
                 rec.violation(dict(sig, oracle='after update() the entries are those of the new input data'), c2,
                               {'index': [int(i) for i in i2], 'got': float(A2[i2]), 'expected': float(R2['A'][i2]), 'value_before_update': float(A.reshape(R2['A'].shape)[i2])})
